@@ -75,7 +75,7 @@ def hval(key, salt=''):
 def base_data(ent, base):
     """thermodict (package convention: pre*/ene* arrays in the calculator's class order) for a base point"""
     keys = class_keys(ent)
-    amp = {'T': 0.0, 'G1': 1.0, 'G2': 6.0, 'X': 36.0}[base]     # |E| <= amp/2
+    amp = {'T': 0.0, 'G1': 1.0, 'G2': 6.0, 'X': 18.0}[base]     # |E| <= amp/2 (X: rate ratios up to ~1e8)
     off = {'T': 1.0, 'G1': 1.0, 'G2': 3.0, 'X': 9.0}[base]
     d = {}
     for kind in KINDS:
@@ -173,3 +173,68 @@ def has_vb(ent):
 
 def tscale(*tensors):
     return max(1e-300, max(float(np.abs(t).max()) for t in tensors))
+
+
+def gf_residual(ent, d, kT=1.0):
+    """max |sum_t omega(s,t) g(t,u) - delta_su| of the bare lattice GF (own GFCrystalcalc instance, same mesh as the
+    calculator) for u = one site per Wyckoff set in cell 0 and s = u and every site one jump away from u"""
+    bFV, bFS, bFSV, bFT0, bFT1, bFT2 = raw_bF(d, kT)
+    vkey = (bFV - bFV.min()).round(12).tobytes() + (bFT0 - bFV.min()).round(12).tobytes()
+    rc = ent.setdefault('gfres', {})
+    if vkey in rc: return rc[vkey]
+    net = model_of(ent).net
+    gf = gf_of(ent)
+    gf.SetRates(np.ones_like(bFV), bFV - bFV.min(), np.ones_like(bFT0), bFT0 - bFV.min())
+    w = net.w
+    worst = 0.
+    for wl in ent['sitelist']:
+        u = wl[0]
+        rows = [(u, np.zeros(net.dim))] + [(j, dx) for (j, dx, c) in net.jumps[u]]
+        for (sj, sx) in rows:
+            tot = 0.
+            for (tj, dx, c) in net.jumps[sj]:
+                tot += np.exp(-bFT0[c] + 0.5 * (bFV[w[sj]] + bFV[w[tj]])) * gf(tj, u, -(sx + dx))
+                tot -= np.exp(-bFT0[c] + bFV[w[sj]]) * gf(sj, u, -sx)
+            if sj == u and np.allclose(sx, 0): tot -= 1.
+            worst = max(worst, abs(tot))
+    if len(rc) > 256: rc.clear()
+    rc[vkey] = worst
+    return worst
+
+
+def bz_tol(ent, d, kT=1.0, floor=1e-7):
+    """BZ-limited tolerance (DESIGN section 4): 20 x the measured diffusion-equation residual of the bare GF
+    for this vacancy data on this calculator's mesh; returns (tol, residual)"""
+    r = gf_residual(ent, d, kT)
+    return max(floor, 20. * r), r
+
+
+def rate_span(ent, d, kT=1.0):
+    """(min, max) over all omega0/omega1/omega2 transition rates (both directions) implied by the data: the dynamic
+    range kappa = max/min bounds the amplification of round-off and of the bare-GF error in any result"""
+    calc = ent['calc']
+    bFV, bFS, bFSV, bFT0, bFT1, bFT2 = raw_bF(d, kT)
+    bFkin = np.array([bFS[s] + bFV[v] for (s, v) in calc.kineticsvWyckoff])
+    for t, k in enumerate(calc.thermo2kin): bFkin[k] += bFSV[t]
+    lr = []
+    for j, (v1, v2) in enumerate(calc.omega0vacancyWyckoff): lr += [-bFT0[j] + bFV[v1], -bFT0[j] + bFV[v2]]
+    for j, (s1, s2) in enumerate(calc.om1_SP): lr += [-bFT1[j] + bFkin[s1], -bFT1[j] + bFkin[s2]]
+    for j, (s1, s2) in enumerate(calc.om2_SP): lr += [-bFT2[j] + bFkin[s1], -bFT2[j] + bFkin[s2]]
+    return float(np.exp(min(lr))), float(np.exp(max(lr)))
+
+
+EPS = 2.3e-16
+
+
+def roundoff_tol(ent, d, kT=1.0, floor=1e-9):
+    lo, hi = rate_span(ent, d, kT)
+    return max(floor, 50. * EPS * hi / lo)
+
+
+def conditioned_tol(ent, d, kT=1.0, floor=1e-9):
+    """tolerance for statements whose error is (bare-GF residual) x (dynamic range of the rates): semidefiniteness,
+    comparisons between different GF evaluations; returns (tol, kappa, residual)"""
+    lo, hi = rate_span(ent, d, kT)
+    kappa = hi / lo
+    r = gf_residual(ent, d, kT)
+    return max(floor, 50. * EPS * kappa, 20. * r * kappa), kappa, r
